@@ -44,6 +44,12 @@ CLAIMED = {
  'C07': dict(level='model_checking', technique='symbolic execution (z3) of pairs of calls with JSON argument templates; observed same-entry decision asserted iff an independent spec-level JSON equality formula; path spellings enumerated',
              text='Two calls with symbolic argument templates are issued in the same build (duplicate RuntimeError iff same entry) and in consecutive builds (cache hit iff same entry); the observed decision must be equivalent to name equality, path equality and spec-level JSON equality of the round-tripped arguments (validity query), and the callee must receive the round-tripped copies with exact types.',
              note='Trusted: proxies (strings as ordered atoms), environment model, z3, the spec formula; spelling of paths is enumerated, not symbolic.'),
+ 'C16': dict(level='model_checking', technique='bounded symbolic execution (z3): field-wise comparison of the Cache object written with the one read back, and served-from-cache values vs originals with exact types',
+             text='JSON templates with symbolic leaves are returned at several nesting positions and used as version values, output names come from a legal-name list; the Cache written is compared field by field with the Cache read back (records, indexes, created directories, versions, failure markers, record count), the unchanged rebuild must serve equal values of the same types without re-execution, and clean must still remove every created directory.',
+             note='Trusted: environment model; the gzip/json stub in the symbolic run (real gzip/json in the real-OS validations of each run), z3.'),
+ 'C14': dict(level='fault_enumeration', technique="bounded symbolic execution (z3) with a symbolic fault index over the library's own mutating system calls; rollback assertions or comparison with a reference in which the API call in progress fails without effect",
+             text='One OSError(EIO) is injected at the j-th mkdir / makedirs / rename / replace / cache open-for-write of a build, j symbolic; if it leaves build the pre-state (bytes, mtime, cache file, no new files/dirs, no temp dir) must be back, if user code catches it the value and final tree must equal the reference where that call failed in setup, and the following fault-free build must again equal the from-scratch reference.',
+             note='Trusted: environment model and its call hook points, reference model, z3; faults during commit/rollback are outside the property.'),
 }
 NA_REASON = 'check not built yet in this round (work in progress; see DESIGN.md section 12)'
 
